@@ -9,6 +9,7 @@ C09 driver (Float).  Floats cross the pipe as 16-hex-digit bit patterns.
   pab <m> lam×m mu×m psi×m rho×m times×(m+1)   -> `p h,…(m+1) A h,…(m) B h,…(m)`
   epi <R> <delta> <s> [<r>]                     -> `lam mu psi`
   opts                                          -> per class `name:ok` and translatorOk
+  refine <m> <i> <s> lam×m mu×m psi×m rho×m times×(m+1) -> `lam … mu … psi … rho … times …` of the grid with epoch i cut at s
 -/
 open TT.C09 TT.Proto
 
@@ -22,6 +23,7 @@ def takeFloats (n : Nat) (ws : List String) : Option (List Float × List String)
 
 def commaF (xs : List Float) : String := ",".intercalate (xs.map floatBits)
 def commaN (xs : List Nat) : String := ",".intercalate (xs.map toString)
+def commaI (xs : List Int) : String := ",".intercalate (xs.map toString)
 
 def handle (line : String) : String :=
   match splitWords line with
@@ -61,7 +63,7 @@ def handle (line : String) : String :=
         let rt := ys.map fun y => if isRhoTip r t m y then 1 else 0
         let n := (List.range (m - 1)).map fun k => nCross t (k + 1) xs ys
         let nn := (List.range m).map fun i => nAt t i ys
-        s!"{floatBits v} ix {commaN ix} iy {commaN iy} rhotip {commaN rt} n {commaN n} N {commaN nn}"
+        s!"{floatBits v} ix {commaN ix} iy {commaN iy} rhotip {commaN rt} n {commaI n} N {commaN nn}"
     | _, _, _ => "bad-op"
   | "pab" :: m :: rest =>
     match m.toNat? with
@@ -89,6 +91,26 @@ def handle (line : String) : String :=
     | some [R, d, s] => let (a, b, c) := epiToBD R d s none; s!"{floatBits a} {floatBits b} {floatBits c}"
     | some [R, d, s, r] => let (a, b, c) := epiToBD R d s (some r); s!"{floatBits a} {floatBits b} {floatBits c}"
     | _ => "bad-op"
+  | "refine" :: m :: i :: sv :: rest =>
+    match m.toNat?, i.toNat?, parseFloatBits sv with
+    | some m, some i, some sv =>
+      if m = 0 ∨ ¬ i < m then "bad-op" else
+      let r? := do
+        let (lam, ws) ← takeFloats m rest
+        let (mu, ws) ← takeFloats m ws
+        let (psi, ws) ← takeFloats m ws
+        let (rho, ws) ← takeFloats m ws
+        let (times, ws) ← takeFloats (m + 1) ws
+        if ws.isEmpty then some (lam, mu, psi, rho, times) else none
+      match r? with
+      | none => "bad-op"
+      | some (lam, mu, psi, rho, times) =>
+        let r : Rates Float := ⟨arr lam, arr mu, arr psi, arr rho⟩
+        let r' := cutRates r i
+        let t' := cutTimes (arr times) i sv
+        let ks := List.range (m + 1)
+        s!"lam {commaF (ks.map r'.lam)} mu {commaF (ks.map r'.mu)} psi {commaF (ks.map r'.psi)} rho {commaF (ks.map r'.rho)} times {commaF ((List.range (m + 2)).map t')}"
+    | _, _, _ => "bad-op"
   | ["opts"] =>
     let cs := TTGen.C09_Options.classes.map fun c => s!"{c.name}:{c.ok}"
     s!"{" ".intercalate cs} translatorOk:{TTGen.C09_Options.translatorOk}"
